@@ -692,7 +692,7 @@ def keyword_field_cases():
 def probe_cases():
     """seed-independent inputs that are NOT all sentences of the reference grammar (many are rejected): they probe the oracles that
     apply to whatever is accepted (round trip, positions, traversal ...), never the acceptance property C08"""
-    return literal_systematic() + pseudo_keyword_cases() + [("ParseExpr", x) for x in NUMERIC_POSTFIX] + clause_permutations() + [(e, x.encode()) for (e, x) in TRAILING_COMMA] + keyword_field_cases()
+    return literal_systematic() + pseudo_keyword_cases() + [("ParseExpr", x) for x in NUMERIC_POSTFIX] + clause_permutations() + [(e, x.encode()) for (e, x) in TRAILING_COMMA] + keyword_field_cases() + CALL_CLAUSE_PROBES + foreign_type_cases() + compound_paren_cases()
 
 
 def systematic_cases(valid_only=True):
@@ -999,6 +999,8 @@ def type_cases(rnd, quick):
         k = rnd.randrange(3)
         u = t[:i] + t[i + 1:] if k == 0 else t[:i] + [t[i]] + t[i:] if k == 1 else t[:i] + [rnd.choice(TYPE_SYMS + [b"1", b"(", b")", b";"])] + t[i + 1:]
         cases.append(join_compact(u))
+    # names that are types elsewhere: ordinary named types here, alone and nested
+    cases += [x for (e, x) in foreign_type_cases() if e == "ParseType"]
     return sorted(set(cases))
 
 
@@ -1251,4 +1253,78 @@ def same_length_line_pairs(inputs):
         for i in (idx[0], idx[-1], idx[len(idx) // 2]):
             out.append(x)
             out.append(x[:i] + b"\n" + x[i + 1:])
+    return out
+
+
+# ---------------------------------------------------------------- round-5 additions
+# type names other SQL dialects (and GoogleSQL outside Spanner) use: here they are ordinary named types, in every position a type can take
+FOREIGN_TYPE_NAMES = [b"INT", b"INTEGER", b"BIGINT", b"SMALLINT", b"TINYINT", b"BYTEINT", b"BOOLEAN", b"DECIMAL", b"BIGDECIMAL", b"BIGNUMERIC", b"DOUBLE", b"FLOAT", b"REAL",
+                      b"VARCHAR", b"CHAR", b"TEXT", b"BLOB", b"DATETIME", b"TIME", b"GEOGRAPHY", b"RANGE", b"int", b"boolean", b"Integer", b"float", b"uuid", b"UUID", b"TOKENLIST"]
+
+
+def foreign_type_cases():
+    out = []
+    for n in FOREIGN_TYPE_NAMES:
+        out += [("ParseType", n), ("ParseType", b"ARRAY<" + n + b">"), ("ParseType", b"STRUCT<amount " + n + b", " + n + b">"), ("ParseType", b"ARRAY<STRUCT<x ARRAY<" + n + b">>>"),
+                ("ParseExpr", b"CAST(1 AS " + n + b")"), ("ParseExpr", b"SAFE_CAST(x AS ARRAY<" + n + b">)"), ("ParseExpr", b"ARRAY<" + n + b">[1]"), ("ParseExpr", b"STRUCT<" + n + b">(1)"),
+                ("ParseQuery", b"SELECT CAST(x AS " + n + b") FROM t"), ("ParseDDL", b"CREATE FUNCTION f(a " + n + b") RETURNS " + n + b" AS (a)")]
+    return out
+
+
+def compound_paren_cases():
+    """set operations whose LEFT (and right) operand is a parenthesised compound query, with equal and with different operators / modifiers"""
+    ops = [b"UNION ALL", b"UNION DISTINCT", b"INTERSECT ALL", b"INTERSECT DISTINCT", b"EXCEPT ALL", b"EXCEPT DISTINCT"]
+    out = []
+    for a in ops:
+        for b in (a, ops[(ops.index(a) + 1) % len(ops)]):
+            l = b"(SELECT 1 " + a + b" SELECT 2) " + b + b" SELECT 3"
+            r = b"SELECT 1 " + a + b" (SELECT 2 " + b + b" SELECT 3)"
+            both = b"(SELECT 1 " + a + b" SELECT 2) " + b + b" (SELECT 3 " + a + b" SELECT 4)"
+            deep = b"((SELECT 1 " + a + b" SELECT 2) " + a + b" SELECT 3) " + b + b" SELECT 4"
+            for x in (l, r, both, deep):
+                out += [("ParseQuery", x), ("ParseQuery", b"SELECT * FROM (" + x + b") AS s"), ("ParseQuery", x + b" ORDER BY 1 LIMIT 2"),
+                        ("ParseExpr", b"ARRAY(" + x + b")"), ("ParseStatement", b"CREATE VIEW v SQL SECURITY INVOKER AS " + x), ("ParseDML", b"INSERT INTO t (a) " + x)]
+    return out
+
+
+CONTROL_BYTES = [b"\x00", b"\x01", b"\x0b", b"\x0c", b"\x1a", b"\x1f", b"\x7f", b"\x80", b"\x85", b"\xa0", b"\xff", b"\xc2\x85", b"\xc2\xa0", b"\xe2\x80\xa8", b"\xef\xbb\xbf"]
+
+
+def control_byte_insertions(cases, per_case=3):
+    """each input with one unusual byte (NUL and other controls, form feed / vertical tab, stray high bytes, Unicode spaces, BOM) put at a token
+    boundary -- before the input, after it, and in place of a blank"""
+    out = []
+    for n, (e, x) in enumerate(cases):
+        idx = [i for i, c in enumerate(x) if c == 0x20]
+        places = [0, len(x)] + ([idx[(n * 7) % len(idx)]] if idx else [])
+        for j, i in enumerate(places[:per_case]):
+            c = CONTROL_BYTES[(n + j) % len(CONTROL_BYTES)]
+            if i < len(x) and x[i:i + 1] == b" ":
+                out.append((e, x[:i] + c + x[i + 1:]))
+                out.append((e, x[:i + 1] + c + x[i:]))
+            else:
+                out.append((e, x[:i] + c + x[i:]))
+    return out
+
+
+def cross_piece_context_lists():
+    """';'-joined lists in which ONE piece uses something lexically unusual -- form feed / vertical tab / Unicode space as white space, a comment
+    right before the separator, a non-ASCII literal or identifier, a BOM, a lone control byte -- next to plain pieces: whatever a piece means
+    alone it must mean in the list, whatever the other pieces contain"""
+    plain = {"ParseStatements": [b"SELECT 1", b"DROP TABLE t", b"DELETE FROM t WHERE TRUE"], "ParseDDLs": [b"DROP TABLE t", b"CREATE TABLE t (a INT64) PRIMARY KEY (a)"],
+             "ParseDMLs": [b"DELETE FROM t WHERE TRUE", b"INSERT INTO t (a) VALUES (1)"]}
+    odd = {"ParseStatements": [b"SELECT\x0c1", b"SELECT\x0b1", b"SELECT\xc2\xa01", b"SELECT\xe2\x80\xa81", b"SELECT '\xc3\xa9'", b"SELECT `\xe6\x97\xa5`", b"SELECT 1 /* c */", b"SELECT 1 -- c",
+                               b"SELECT 1 # c", b"SELECT 1 /**/", b"/* c */", b"SELECT \x00", b"SELECT 1\x00", b"\xef\xbb\xbfSELECT 1", b"SELECT b'\\xff'", b"SELECT 1\r", b"SELECT '\xf0\x9f\x98\x80' AS x",
+                               b"SELECT 1 /* \xc3\xa9 */", b"SELECT\t1\x0c"],
+           "ParseDDLs": [b"DROP\x0cTABLE t", b"DROP\x0bTABLE t", b"DROP TABLE `\xc3\xa9`", b"DROP TABLE t /* c */", b"DROP TABLE t -- c", b"DROP TABLE t /* \xc3\xa9 */", b"DROP\xc2\xa0TABLE t",
+                         b"CREATE TABLE t (a STRING(MAX) DEFAULT ('\xc3\xa9')) PRIMARY KEY (a)", b"DROP TABLE t\x00"],
+           "ParseDMLs": [b"DELETE\x0cFROM t WHERE TRUE", b"DELETE\x0bFROM t WHERE TRUE", b"DELETE FROM t WHERE a = '\xc3\xa9'", b"DELETE FROM t WHERE TRUE /* c */",
+                         b"DELETE FROM t WHERE TRUE -- c", b"DELETE\xc2\xa0FROM t WHERE TRUE", b"DELETE FROM `\xc3\xa9` WHERE TRUE", b"DELETE FROM t WHERE TRUE\x00"]}
+    out = []
+    for e in plain:
+        for o in odd[e]:
+            for pl in plain[e]:
+                out += [(e, o + b";" + pl), (e, pl + b";" + o), (e, o + b"; " + pl + b";"), (e, pl + b" ;" + o + b";" + pl)]
+            for o2 in odd[e]:
+                out.append((e, o + b";" + o2))
     return out
